@@ -92,6 +92,67 @@ class Desc:
         self.paddress.ns = 0
 
 
+def access_claims(hub, sizes, begs, conts, A, V, acc, write, ret, tag=''):
+    """claims for ONE access (address A: 34-bit term, value V) on a hub whose devices held `conts` before it"""
+    cl = []
+    # oracle: first matching controller
+    hit = [z3.And(z3.ULE(begs[d], A), z3.ULT(A, begs[d] + sizes[d])) for d in range(len(sizes))]
+    first = []
+    none_before = z3.BoolVal(True)
+    for d in range(len(sizes)):
+        first.append(z3.And(none_before, hit[d]))
+        none_before = z3.And(none_before, z3.Not(hit[d]))
+    nohit = none_before
+    # device sizes never change
+    for d, mc in enumerate(hub.memories):
+        cl.append(holds(tag + 'len(device %d) unchanged' % d, z3.BoolVal(len(mc.mem.memory_array) == sizes[d])))
+
+    def dev_byte(d, off34):
+        """content byte of device d at symbolic offset (34-bit term)"""
+        r = z3.BitVecVal(0, 8)
+        for i in range(sizes[d] - 1, -1, -1):
+            r = z3.If(off34 == i, conts[d][i], r)
+        return r
+    if not write:
+        for d in range(len(sizes)):
+            off = A - begs[d]
+            inside = z3.ULE(off + acc, z3.BitVecVal(sizes[d], 34))
+            want = [dev_byte(d, off + i) for i in range(acc)]
+            w = want[0] if acc == 1 else z3.Concat(*reversed(want))
+            cl.append(holds(tag + 'read inside device %d = little-endian bytes [addr-begin, +size)' % d,
+                            z3.Implies(z3.And(first[d], inside), z3.And(in_range(ret, 8 * acc),
+                                                                        to_bv(ret, 8 * acc) == w))))
+        cl.append(holds(tag + 'unmapped address reads as zero', z3.Implies(nohit, to_bv(ret, 8 * acc + 1) == 0)))
+        for d, mc in enumerate(hub.memories):
+            arr = mc.mem.memory_array
+            for i in range(min(len(arr), sizes[d])):
+                cl.append(eq(tag + 'read leaves device %d byte %d' % (d, i), arr[i], conts[d][i], 8))
+    else:
+        for d, mc in enumerate(hub.memories):
+            arr = mc.mem.memory_array
+            off = A - begs[d]
+            inside = z3.ULE(off + acc, z3.BitVecVal(sizes[d], 34))
+            for i in range(min(len(arr), sizes[d])):
+                got = to_bv(arr[i], 8)
+                rng = in_range(arr[i], 8)
+                k = z3.BitVecVal(i, 34) - off  # index into the written value if 0 <= k < acc
+                inwin = z3.And(first[d], z3.ULT(k, acc))
+                vb = z3.BitVecVal(0, 8)
+                for j in range(acc):
+                    vb = z3.If(k == j, z3.Extract(8 * j + 7, 8 * j, V), vb)
+                # bytes outside the access window (or of a device that is not the first match) are untouched
+                cl.append(holds(tag + 'write: device %d byte %d untouched outside the window' % (d, i),
+                                z3.Implies(z3.Not(inwin), z3.And(rng, got == conts[d][i]))))
+                # an access lying wholly inside the device writes exactly the value bytes
+                cl.append(holds(tag + 'write: device %d byte %d = value byte inside the window' % (d, i),
+                                z3.Implies(z3.And(inwin, inside), z3.And(rng, got == vb))))
+                # a straddling access may only leave old or new data in its in-device part
+                cl.append(holds(tag + 'write: device %d byte %d old-or-new when straddling' % (d, i),
+                                z3.Implies(z3.And(inwin, z3.Not(inside)),
+                                           z3.And(rng, z3.Or(got == vb, got == conts[d][i])))))
+    return cl
+
+
 def mk_hub(sizes, acc, write):
     """sizes: tuple of device sizes (1..3 devices); acc: access size"""
     def fn(env):
@@ -131,65 +192,80 @@ def mk_hub(sizes, acc, write):
             if not from_code(ex):
                 raise
             exc = ex
-        cl = []
         if exc is not None:
             from vf.unit import _tb_tail
             return [('no host-level error', z3.BoolVal(False), '%s: %s @ %s' % (type(exc).__name__, exc, _tb_tail(exc)))]
-        # oracle: first matching controller
-        hit = [z3.And(z3.ULE(begs[d], A), z3.ULT(A, begs[d] + sizes[d])) for d in range(len(sizes))]
-        first = []
-        none_before = z3.BoolVal(True)
-        for d in range(len(sizes)):
-            first.append(z3.And(none_before, hit[d]))
-            none_before = z3.And(none_before, z3.Not(hit[d]))
-        nohit = none_before
-        # device sizes never change
-        for d, mc in enumerate(hub.memories):
-            cl.append(holds('len(device %d) unchanged' % d, z3.BoolVal(len(mc.mem.memory_array) == sizes[d])))
+        cl = access_claims(hub, sizes, begs, conts, A, V, acc, write, ret)
+        return cl
+    return fn
 
-        def dev_byte(d, off34):
-            """content byte of device d at symbolic offset (34-bit term)"""
-            r = z3.BitVecVal(0, 8)
-            for i in range(sizes[d] - 1, -1, -1):
-                r = z3.If(off34 == i, conts[d][i], r)
-            return r
-        if not write:
-            for d in range(len(sizes)):
-                off = A - begs[d]
-                inside = z3.ULE(off + acc, z3.BitVecVal(sizes[d], 34))
-                want = [dev_byte(d, off + i) for i in range(acc)]
-                w = want[0] if acc == 1 else z3.Concat(*reversed(want))
-                cl.append(holds('read inside device %d = little-endian bytes [addr-begin, +size)' % d,
-                                z3.Implies(z3.And(first[d], inside), z3.And(in_range(ret, 8 * acc),
-                                                                            to_bv(ret, 8 * acc) == w))))
-            cl.append(holds('unmapped address reads as zero', z3.Implies(nohit, to_bv(ret, 8 * acc + 1) == 0)))
-            for d, mc in enumerate(hub.memories):
-                arr = mc.mem.memory_array
-                for i in range(min(len(arr), sizes[d])):
-                    cl.append(eq('read leaves device %d byte %d' % (d, i), arr[i], conts[d][i], 8))
+
+def mk_hub2(sizes, acc1, write1, acc2, write2, mutate='none'):
+    """two accesses in a row (each at its own symbolic address) -- the second must behave as a function of the
+    hub's controller list and device bytes as they are after the first (no dependence on the access history);
+    mutate: what happens to hub.memories between the two accesses ('none', 'pop0': the first controller is
+    unregistered, 'reverse': the controllers are re-registered in the opposite order)"""
+    def fn(env):
+        from armulator.armv6.memory_controller_hub import MemoryControllerHub, MemoryController
+        from armulator.armv6.memory_types import RAM
+        from vf.unit import _tb_tail
+        if env.symbolic:
+            install_models()
         else:
-            for d, mc in enumerate(hub.memories):
-                arr = mc.mem.memory_array
-                off = A - begs[d]
-                inside = z3.ULE(off + acc, z3.BitVecVal(sizes[d], 34))
-                for i in range(min(len(arr), sizes[d])):
-                    got = to_bv(arr[i], 8)
-                    rng = in_range(arr[i], 8)
-                    k = z3.BitVecVal(i, 34) - off  # index into the written value if 0 <= k < acc
-                    inwin = z3.And(first[d], z3.ULT(k, acc))
-                    vb = z3.BitVecVal(0, 8)
-                    for j in range(acc):
-                        vb = z3.If(k == j, z3.Extract(8 * j + 7, 8 * j, V), vb)
-                    # bytes outside the access window (or of a device that is not the first match) are untouched
-                    cl.append(holds('write: device %d byte %d untouched outside the window' % (d, i),
-                                    z3.Implies(z3.Not(inwin), z3.And(rng, got == conts[d][i]))))
-                    # an access lying wholly inside the device writes exactly the value bytes
-                    cl.append(holds('write: device %d byte %d = value byte inside the window' % (d, i),
-                                    z3.Implies(z3.And(inwin, inside), z3.And(rng, got == vb))))
-                    # a straddling access may only leave old or new data in its in-device part
-                    cl.append(holds('write: device %d byte %d old-or-new when straddling' % (d, i),
-                                    z3.Implies(z3.And(inwin, z3.Not(inside)),
-                                               z3.And(rng, z3.Or(got == vb, got == conts[d][i])))))
+            uninstall_models()
+        hub = MemoryControllerHub()
+        begs, conts = [], []
+        for d, sz in enumerate(sizes):
+            b = env.var('beg%d' % d, 32)
+            env.assume(core.tobool(b + sz <= (1 << 32)))
+            ram = RAM(sz)
+            cont = [env.var('d%d_b%d' % (d, i), 8) for i in range(sz)]
+            if env.symbolic:
+                ram.memory_array = SymByteArray(cont)
+            else:
+                for i, v in enumerate(cont):
+                    ram.memory_array[i] = v
+            hub.memories.append(MemoryController(ram, b, b + sz))
+            begs.append(to_bv(b, 34))
+            conts.append([to_bv(c, 8) for c in cont])
+        sizes_ = list(sizes)
+        cl = []
+        for step, (acc, write) in enumerate(((acc1, write1), (acc2, write2))):
+            addr = env.var('addr%d' % step, 32)
+            value = env.var('value%d' % step, 8 * acc)
+            A = to_bv(addr, 34)
+            V = to_bv(value, 8 * acc)
+            if step == 0 and write:
+                # a first write that straddles the end of a device leaves old-or-new data (claimed by the one-access
+                # units); here the first access lies wholly inside its device or is unmapped
+                for d in range(len(sizes_)):
+                    env.assume(z3.Or(z3.Not(z3.And(z3.ULE(begs[d], A), z3.ULT(A, begs[d] + sizes_[d]))),
+                                     z3.ULE(A - begs[d] + acc, z3.BitVecVal(sizes_[d], 34))))
+            ret = None
+            try:
+                if write:
+                    hub[Desc(addr), acc] = value
+                else:
+                    ret = hub[Desc(addr), acc]
+            except Exception as ex:
+                if not from_code(ex):
+                    raise
+                return [('no host-level error', z3.BoolVal(False),
+                         '%s: %s @ %s' % (type(ex).__name__, ex, _tb_tail(ex)))]
+            cl += access_claims(hub, sizes_, begs, conts, A, V, acc, write, ret, tag='access %d: ' % (step + 1))
+            if step == 0:
+                # the devices as the first access left them are the second access's pre-state
+                for d, mc in enumerate(hub.memories):
+                    arr = mc.mem.memory_array
+                    if len(arr) != sizes_[d]:
+                        return cl
+                    conts[d] = [to_bv(arr[i], 8) for i in range(sizes_[d])]
+                if mutate == 'pop0':
+                    hub.memories.pop(0)
+                    begs, conts, sizes_ = begs[1:], conts[1:], sizes_[1:]
+                elif mutate == 'reverse':
+                    hub.memories.reverse()
+                    begs, conts, sizes_ = begs[::-1], conts[::-1], sizes_[::-1]
         return cl
     return fn
 
@@ -207,6 +283,24 @@ def units(tier, seed=0):
                 us.append(UnitSpec('hub/%s/%d/%s' % ('+'.join(map(str, lay)), acc, 'w' if write else 'r'), 'vf.c16',
                                    'mk_hub', dict(sizes=list(lay), acc=acc, write=write), summaries=False,
                                    weight=len(lay) * sum(lay)))
+    # two accesses in a row: the second must not depend on the first (hidden per-hub state such as a last-hit cache)
+    if tier == 'quick':
+        lay2 = [(3,), (2, 3)]
+        accs = [(1, 4), (4, 1)]
+    else:
+        lay2 = [(3,), (2, 3), (4, 5), (1, 2, 3)]
+        accs = [(1, 1), (1, 4), (4, 1), (2, 8), (8, 2), (4, 4)]
+    for lay in lay2:
+        for a1, a2 in accs:
+            for w1 in (False, True):
+                for w2 in (False, True):
+                    for mut in ('none', 'pop0', 'reverse'):
+                        if mut == 'reverse' and len(lay) < 2:
+                            continue
+                        us.append(UnitSpec('hub2/%s/%d%s-%s-%d%s' % ('+'.join(map(str, lay)), a1, 'w' if w1 else 'r', mut,
+                                                                      a2, 'w' if w2 else 'r'), 'vf.c16', 'mk_hub2',
+                                           dict(sizes=list(lay), acc1=a1, write1=w1, acc2=a2, write2=w2, mutate=mut),
+                                           summaries=False, weight=3 * len(lay) * sum(lay)))
     return us
 
 
@@ -217,9 +311,14 @@ META = {
                    'gapped and overlapping layouts are all instances), the access address and the value are '
                    'symbolic; one operation from an ARBITRARY hub state, asserting the result, the exact write '
                    'footprint, first-match priority, unmapped-reads-zero, no host exception and len(device) '
-                   'unchanged -- the last is the invariant that makes the single step cover every history.',
+                   'unchanged -- the last is the invariant that makes the single step cover every history. Two-access '
+                   'units (hub2/...) run two accesses at independent symbolic addresses, optionally un-registering or '
+                   're-ordering controllers in between, and hold the second access to the same claims over the state the '
+                   'first one left: the result may depend on the controller list and the device bytes only, not on the '
+                   'access history.',
     'bounds': ['1..3 controllers with device sizes from {1,2,3,4,5,7,8,9,16} (quick: 5 layouts; thorough: 15)',
-               'access sizes {1,2,4,8}', 'slice offsets reaching the byte-array model are enumerated by the solver '
+               'access sizes {1,2,4,8}', 'two-access units: layouts of 1..3 small devices, 2..6 size pairs, the first '
+               'write not straddling a device end', 'slice offsets reaching the byte-array model are enumerated by the solver '
                '(<= device size values per path)'],
     'outside': ['device sizes and controller counts beyond the enumerated layouts', 'controllers whose end differs '
                 'from beginning + device size'],
